@@ -68,6 +68,17 @@ class World:
         self.probe = Probe().register(self.app)
         for c in extra_components:
             c.register(self.app)
+        # feedback events are fired by the root on itself (self.fire in _eventDone): an instance-level wrapper
+        # shows the moment they are *fired*; if the code stops using self.fire only the dispatch time remains
+        orig_fire = self.app.fire
+
+        def fire_probe(event, *channels, **kwargs):
+            par = getattr(event, 'parent', None)
+            puid = getattr(par, '_vuid', None)
+            if puid is not None and getattr(event, '_vuid', None) is None:
+                world.L('FBF', event.name[len(par.name) + 1:], puid)
+            return orig_fire(event, *channels, **kwargs)
+        self.app.fire = fire_probe
         # flush the 'registered' events of the set-up
         while len(self.app):
             self.app.flush()
@@ -322,6 +333,53 @@ class World:
             self.app.tick()
         else:
             self.app.tick(budget)
+
+    def run(self, max_iters=3000, on_iter=None):
+        """Execute the program under the real ``run()`` in the checking thread.  A harness component
+        keeps the idle handler from blocking (reduce_time_left(0)), counts loop iterations, and
+        calls stop() once the system has been quiescent (no queued events, no tasks) for two
+        consecutive iterations.  Returns True if it ended quiescent, False if max_iters were used."""
+        from circuits import BaseComponent, handler
+        world = self
+        st = {'idle': 0, 'iters': 0, 'settled': False, 'forced': False}
+
+        class Stopper(BaseComponent):
+            @handler('generate_events', priority=-50)
+            def _on_ge(self, event):
+                event.reduce_time_left(0)
+                st['iters'] += 1
+                world.tick_no += 1
+                world.L('TICK', world.tick_no)
+                if on_iter is not None:
+                    on_iter(world, st['iters'])
+                if world.stop_requested:
+                    return
+                if world.quiescent():
+                    st['idle'] += 1
+                    if st['idle'] >= 2:
+                        st['settled'] = True
+                        world.stop_requested = True
+                        world.app.stop()
+                else:
+                    st['idle'] = 0
+                    if st['iters'] >= max_iters:
+                        st['forced'] = True
+                        world.stop_requested = True
+                        world.app.stop()
+
+        self.stop_requested = False
+        stopper = Stopper().register(self.app)
+        self.L('RUN')
+        try:
+            self.run_result = self.app.run()
+            self.run_raised = None
+        except BaseException as e:  # SystemExit with a code, or a loop crash
+            self.run_raised = e
+        self.L('RUNRET')
+        stopper.unregister()
+        while len(self.app):
+            self.app.flush()
+        return st['settled'] and not st['forced']
 
     def quiescent(self):
         return len(self.app) == 0 and not self.app._tasks
